@@ -8,13 +8,25 @@ pub struct Regex {
     regex: regex::Regex,
     fixed_prefix: String,
     case_insensitive: bool,
+    dot_matches_new_line: bool,
 }
 
 impl Regex {
     pub fn new(re: &str, case_insensitive: bool) -> Result<Regex, regex::Error> {
+        Self::with_options(re, case_insensitive, false)
+    }
+
+    /// Like `new`, but allows `.` to match a line feed as well.
+    /// File names may contain line feeds, and patterns translated from globs use `.*` for `**`.
+    pub fn with_options(
+        re: &str,
+        case_insensitive: bool,
+        dot_matches_new_line: bool,
+    ) -> Result<Regex, regex::Error> {
         assert!(re.starts_with('^'));
         let regex = regex::RegexBuilder::new(re)
             .case_insensitive(case_insensitive)
+            .dot_matches_new_line(dot_matches_new_line)
             .build()?;
         let fixed_prefix = if case_insensitive {
             Self::get_fixed_prefix(re).to_lowercase()
@@ -25,11 +37,16 @@ impl Regex {
             regex,
             fixed_prefix,
             case_insensitive,
+            dot_matches_new_line,
         })
     }
 
     pub fn is_case_insensitive(&self) -> bool {
         self.case_insensitive
+    }
+
+    pub fn dot_matches_new_line(&self) -> bool {
+        self.dot_matches_new_line
     }
 
     pub fn is_match(&self, s: &str) -> bool {
